@@ -1,12 +1,289 @@
 package main
 
+import (
+	"bufio"
+	"encoding/json"
+	"fmt"
+	"os"
+	"os/exec"
+	"path/filepath"
+	"strings"
+	"sync"
+)
+
+// C11 — snapshot location is a pure function of test file, test name and
+// options (DESIGN §6 C11). Engine E3: a generated module with packages at three
+// depths, each looping over Dir x Filename x Ext x API x call shape inside the
+// test binary; one binary run per (depth, build, cwd, GOROOT).
+
+type c11Combo struct {
+	Idx      int    `json:"idx"`
+	Name     string `json:"name"`
+	Dir      string `json:"dir"`
+	Filename string `json:"filename"`
+	Ext      string `json:"ext"`
+	API      string `json:"api"`
+	Shape    string `json:"shape"`
+}
+
+type c11Result struct {
+	Combo    c11Combo `json:"combo"`
+	TestName string   `json:"test_name"`
+	Created  []string `json:"created"`
+	Failed   bool     `json:"failed"`
+}
+
+type c11Run struct {
+	Depth  string `json:"depth"` // "" | sub | sub/deep
+	Build  string `json:"build"` // plain | trimpath-flag | trimpath-goflags
+	Chdir  bool   `json:"chdir,omitempty"`
+	GOROOT bool   `json:"goroot,omitempty"`
+	Combo  *int   `json:"combo,omitempty"` // replay: report only this combination
+}
+
+func c11Tmpl(name string) string { return e3Template(filepath.Join("c11", name)) }
+
+func c11WriteModule(root string) error {
+	if err := e3WriteModule(root); err != nil { // go.mod / go.sum (the C08 sources are removed below)
+		return err
+	}
+	for _, f := range []string{"a_test.go", "b_test.go", "main_test.go", "interp.go"} {
+		os.Remove(filepath.Join(root, f))
+	}
+	os.MkdirAll(filepath.Join(root, "c11lib"), 0o755)
+	os.WriteFile(filepath.Join(root, "c11lib", "lib.go"), []byte(c11Tmpl("lib.go.tmpl")), 0o644)
+	calls := c11Tmpl("calls.go.tmpl")
+	marker := "// {{FN}} performs"
+	fnBody := calls[strings.Index(calls, marker):]
+	os.MkdirAll(filepath.Join(root, "helperpkg"), 0o755)
+	os.WriteFile(filepath.Join(root, "helperpkg", "helper.go"),
+		[]byte(strings.NewReplacer("{{PKG}}", "helperpkg", "{{FN}}", "Call", "{{WHERE}}", "helper in another package").Replace(calls)), 0o644)
+	for _, depth := range []string{"", "sub", "sub/deep"} {
+		dir := filepath.Join(root, depth)
+		os.MkdirAll(dir, 0o755)
+		pkg := "e3c11"
+		main := c11Tmpl("main_test.go.tmpl")
+		main = strings.Replace(main, "\t\"e3mod/helperpkg\"\n", "\t\"e3mod/helperpkg\"\n\n\t\"github.com/gkampitakis/go-snaps/snaps\"\n", 1)
+		main += "\n" + strings.ReplaceAll(fnBody, "{{FN}}", "callDirect")
+		main = strings.ReplaceAll(main, "{{PKG}}", pkg)
+		if err := os.WriteFile(filepath.Join(dir, "c11_test.go"), []byte(main), 0o644); err != nil {
+			return err
+		}
+		os.WriteFile(filepath.Join(dir, "other_test.go"),
+			[]byte(strings.NewReplacer("{{PKG}}", pkg, "{{FN}}", "callOther", "{{WHERE}}", "helper in another _test.go file").Replace(calls)), 0o644)
+		os.WriteFile(filepath.Join(dir, "plain.go"),
+			[]byte(strings.NewReplacer("{{PKG}}", pkg, "{{FN}}", "callPlain", "{{WHERE}}", "helper in a non-test file of the package").Replace(calls)), 0o644)
+	}
+	return nil
+}
+
+// c11Expected is the reference location function of the property statement.
+func c11Expected(pkgDir, absDir string, r c11Result) string {
+	cb := r.Combo
+	dir := cb.Dir
+	switch {
+	case dir == "ABS":
+		dir = absDir
+	case dir == "":
+		dir = filepath.Join(pkgDir, "__snapshots__")
+	default:
+		dir = filepath.Join(pkgDir, dir)
+	}
+	standalone := cb.API == "ssnap" || cb.API == "sjson"
+	base := cb.Filename
+	if base == "" {
+		if standalone {
+			base = strings.ReplaceAll(r.TestName, "/", "_")
+		} else if cb.Shape == "helper-other-testfile" {
+			base = "other_test"
+		} else {
+			base = "c11_test"
+		}
+	}
+	if standalone {
+		base += "_1"
+	}
+	ext := cb.Ext
+	if ext == "" && cb.API == "sjson" {
+		ext = ".json"
+	}
+	return filepath.Join(dir, base+".snap"+ext)
+}
+
 func runC11(tier, scratch, replay string, nworkers int) *merged {
 	m := newMerged()
-	m.harnessErrs = append(m.harnessErrs, "C11 not built yet")
+	m.rule = "Dir {unset, d, d/e, absolute} x Filename x Ext x 5 APIs x 8 call shapes (direct, closure, helper in the same / another test file, in a non-test file, in another package, subtest, goroutine) looped inside the real test binary, " +
+		"x package depth {root, sub, sub/deep} x build {plain, -trimpath flag, -trimpath via GOFLAGS} x cwd changed (plain) x GOROOT set/unset; non-trivial = distinct (run, combination) pairs"
+	m.assumptions = append(m.assumptions, "with -trimpath the binary is run from its package directory, as go test does (the documented limitation -trimpath + foreign cwd is excluded)")
+	root := filepath.Join(scratch, "c11", "e3mod")
+	if err := c11WriteModule(root); err != nil {
+		m.harnessErrs = append(m.harnessErrs, err.Error())
+		return m
+	}
+	absDir := filepath.Join(scratch, "c11", "absdir")
+	cwdDir := filepath.Join(scratch, "c11", "cwdtarget")
+	os.MkdirAll(absDir, 0o755)
+	os.MkdirAll(cwdDir, 0o755)
+	var runs []c11Run
+	if replay != "" {
+		b, _ := os.ReadFile(replay)
+		var rf struct {
+			Case c11Run `json:"case"`
+		}
+		if err := json.Unmarshal(b, &rf); err != nil {
+			fatal(2, "replay: %v", err)
+		}
+		runs = []c11Run{rf.Case}
+	} else {
+		for _, depth := range []string{"", "sub", "sub/deep"} {
+			for _, gr := range []bool{false, true} {
+				runs = append(runs, c11Run{Depth: depth, Build: "plain", GOROOT: gr}, c11Run{Depth: depth, Build: "plain", Chdir: true, GOROOT: gr},
+					c11Run{Depth: depth, Build: "trimpath-flag", GOROOT: gr}, c11Run{Depth: depth, Build: "trimpath-goflags", GOROOT: gr})
+			}
+		}
+	}
+	// build the binaries that are needed
+	type bkey struct{ depth, build string }
+	bins := map[bkey]string{}
+	var bmu sync.Mutex
+	var wg sync.WaitGroup
+	need := map[bkey]bool{}
+	for _, r := range runs {
+		need[bkey{r.Depth, r.Build}] = true
+	}
+	first := true
+	for k := range need {
+		k := k
+		build := func() {
+			defer wg.Done()
+			out := filepath.Join(scratch, "c11", fmt.Sprintf("bin-%s-%s.test", strings.ReplaceAll(k.depth, "/", "_"), k.build))
+			args := []string{"test", "-c", "-vet=off", "-o", out}
+			env := goEnv()
+			switch k.build {
+			case "trimpath-flag":
+				args = append(args, "-trimpath")
+			case "trimpath-goflags":
+				env = append(env, "GOFLAGS=-mod=mod -trimpath")
+			}
+			args = append(args, ".")
+			cmd := exec.Command("go", args...)
+			cmd.Dir = filepath.Join(root, k.depth)
+			cmd.Env = env
+			if b, err := cmd.CombinedOutput(); err != nil {
+				bmu.Lock()
+				m.harnessErrs = append(m.harnessErrs, fmt.Sprintf("C11 build %v failed: %v\n%s", k, err, b))
+				bmu.Unlock()
+				return
+			}
+			bmu.Lock()
+			bins[k] = out
+			bmu.Unlock()
+		}
+		wg.Add(1)
+		if first {
+			build()
+			first = false
+		} else {
+			go build()
+		}
+	}
+	wg.Wait()
+	if len(m.harnessErrs) > 0 {
+		return m
+	}
+	goroot := ""
+	if out, err := exec.Command("go", "env", "GOROOT").Output(); err == nil {
+		goroot = strings.TrimSpace(string(out))
+	}
+	m.bounds["runs"] = len(runs)
+	// runs of one depth share the package directory (observed for new files): run them sequentially per depth, depths in parallel
+	byDepth := map[string][]c11Run{}
+	for _, r := range runs {
+		byDepth[r.Depth] = append(byDepth[r.Depth], r)
+	}
+	var mu sync.Mutex
+	var wg2 sync.WaitGroup
+	for depth, rs := range byDepth {
+		wg2.Add(1)
+		// sequentially: every run observes the whole module tree for new files
+		func(depth string, rs []c11Run) {
+			defer wg2.Done()
+			for ri, r := range rs {
+				pkgDir := filepath.Join(root, depth)
+				outFile := filepath.Join(scratch, "c11", fmt.Sprintf("results-%s-%d.jsonl", strings.ReplaceAll(depth, "/", "_"), ri))
+				os.Remove(outFile)
+				cmd := exec.Command("timeout", "-k", "5", "300", bins[bkey{r.Depth, r.Build}], "-test.count", "1", "-test.timeout", "240s", "-test.run", "^TestC11$")
+				cmd.Dir = pkgDir
+				env := []string{"PATH=" + os.Getenv("PATH"), "HOME=" + os.Getenv("HOME"), "NO_COLOR=1", "C11_OUT=" + outFile, "C11_ROOT=" + filepath.Join(scratch, "c11"), "C11_ABS=" + absDir}
+				if r.Chdir {
+					env = append(env, "C11_CWD="+cwdDir)
+				}
+				if r.GOROOT {
+					env = append(env, "GOROOT="+goroot)
+				}
+				if r.Build == "trimpath-goflags" {
+					env = append(env, "GOFLAGS=-trimpath")
+				}
+				cmd.Env = env
+				outb, err := cmd.CombinedOutput()
+				f, ferr := os.Open(outFile)
+				mu.Lock()
+				m.counters["runs_of_real_binary"]++
+				if ferr != nil {
+					m.harnessErrs = append(m.harnessErrs, fmt.Sprintf("C11 run %+v produced no results (%v): %s", r, err, tail(string(outb), 1500)))
+					mu.Unlock()
+					continue
+				}
+				class := ""
+				if r.Build == "trimpath-flag" && r.GOROOT {
+					class = "K8-trimpath-misdetected-when-GOROOT-set"
+				}
+				sc := bufio.NewScanner(f)
+				sc.Buffer(nil, 1<<22)
+				n := 0
+				for sc.Scan() {
+					var res c11Result
+					if json.Unmarshal(sc.Bytes(), &res) != nil {
+						continue
+					}
+					n++
+					if r.Combo != nil && res.Combo.Idx != *r.Combo {
+						continue
+					}
+					m.counters["evaluations"]++
+					m.counters["traces"]++
+					m.counters["transitions"]++
+					cs := r
+					idx := res.Combo.Idx
+					cs.Combo = &idx
+					cb, _ := json.Marshal(cs)
+					m.set("nontrivial")[hash64(string(cb))] = struct{}{}
+					want := c11Expected(pkgDir, absDir, res)
+					m.set("states")[hash64(want, r.Build)] = struct{}{}
+					if len(m.samples) < 5 {
+						sb, _ := json.Marshal(map[string]any{"run": r, "result": res, "expected": want})
+						m.samples = append(m.samples, sb)
+					}
+					if len(res.Created) == 1 && res.Created[0] == want && !res.Failed {
+						m.outcomes["located"]++
+						continue
+					}
+					m.outcomes["mislocated"]++
+					m.viol(class, fmt.Sprintf("run %+v, %s %s Dir=%q Filename=%q Ext=%q in %s: expected exactly one new file %s, the call created %v (test failed=%v)",
+						r, res.Combo.API, res.Combo.Shape, res.Combo.Dir, res.Combo.Filename, res.Combo.Ext, res.TestName, want, res.Created, res.Failed), cs)
+				}
+				f.Close()
+				if n == 0 {
+					m.harnessErrs = append(m.harnessErrs, fmt.Sprintf("C11 run %+v: empty results: %s", r, tail(string(outb), 1500)))
+				}
+				mu.Unlock()
+			}
+		}(depth, rs)
+	}
+	wg2.Wait()
 	return m
 }
 
 func runC05E3(tier, scratch, replay string, nworkers int) *merged {
-	m := newMerged()
-	return m
+	return newMerged()
 }
